@@ -30,6 +30,9 @@ def nontrivial(j, o):
 
 def run(ctx):
     engine_check.standard_run(ctx, PROFILE, MONITORS, nontrivial, RULE, n_quick=200, n_thorough=3000, length=30)
+    # the same property on database files an EARLIER run of the server wrote (corpus/legacy_db)
+    import legacy_db_check
+    legacy_db_check.hook(ctx, "c07")
 
 
 def search(ctx, broken):
@@ -37,4 +40,7 @@ def search(ctx, broken):
 
 
 def replay(ctx, rep):
+    import legacy_db_check
+    if legacy_db_check.is_mine(rep):
+        return legacy_db_check.replay(ctx, rep)
     return engine_check.standard_replay(ctx, rep, MONITORS)
